@@ -84,7 +84,12 @@ def _check_axis(ctx, tag, grid, lo, hi, d, origin, descending):
         ctx.check(tag + "-less-than-one-cell-beyond", And(top - hi < d, lo - bot < d))
     else:
         ctx.check(tag + "-covers", top >= hi - 1e-9 and bot <= lo + 1e-9)
-        ctx.check(tag + "-less-than-one-cell-beyond", top - hi < d + 1e-9 and lo - bot < d + 1e-9)
+        # the miniature geometry is exact in doubles (cells of 1/2 and 1/4 degree), so the strict bound is
+        # decided exactly on the doubles the real code was given - a block that starts exactly one cell
+        # too early (an aligned edge) must not hide behind a tolerance
+        from fractions import Fraction as _Fr
+        ex = lambda v: _Fr(float(v))
+        ctx.check(tag + "-less-than-one-cell-beyond", ex(top) - ex(hi) < ex(d) and ex(lo) - ex(bot) < ex(d))
 
 
 _AX = ["-non-empty", "-consecutive", "-cell-centres", "-covers", "-less-than-one-cell-beyond"]
